@@ -1152,7 +1152,7 @@ pub struct ExUtf8Error(std::str::Utf8Error);
         /*@L:scan_step_stays_within_the_line:C06*/ ret is Ok ==> consumed_clean(bytes@, ret->Ok_0.1@) && str_no_nl(ret->Ok_0.0),""")
     f.body_start("let ghost b0 = bytes@;\n    proof { lemma_find_first_allk(b0); reveal(first_hit); reveal(scan_facts); reveal(scan_raw); reveal(split_ok); reveal(sp_word); }\n")
     # the hint goes in front of the `if` whose condition looks at the first remaining byte (`.. is_newline(&rest[0]) ..`), whatever else the condition says
-    mnl = re.search(r"if\s+[^{};]*?is_newline\(&(\w+)\[0\]\)", f.orig)
+    mnl = re.search(r"if\s+[^{};]*?is_newline\(&(\w+)\[\w+\]\)", f.orig)
     if not mnl:
         raise AnchorLost("parse_until_no_newline: the line-end test `if !rest.is_empty() && is_newline(&rest[0])` was not found")
     rv = mnl.group(1)
@@ -1651,10 +1651,10 @@ pub proof fn lemma_numeric_no_nl(b: Seq<u8>, k: int)
     f.replace_all_re(r"parse_until\(bytes, is_newline\)", "parse_until(bytes, as_exact(|b: &u8| -> (r: bool) ensures r == spec_is_newline(*b) { is_newline(b) }, Ghost(0)))", "R3",
                      why="fn item `is_newline` passed as predicate: eta-expanded into a closure carrying its contract, wrapped (R12) as byte class 0", min_count=0)
     # R5 (trusted region): the three rsplitn statements
-    f.replace_re(r"let mut split_class = original\.rsplitn\(2, '\.'\);\s*let original = split_class\.next\(\)\.ok_or\(ParseError \{\s*line: bytes,\s*kind: ParseErrorKind::ParseError\(\"line is not a valid proguard record\"\),\s*\}\)\?;\s*let original_class = split_class\.next\(\);",
+    f.replace_re(r"let mut split_class = original\.rsplitn\((\d+), '\.'\);\s*let original = split_class\.next\(\)\.ok_or\(ParseError \{\s*line: bytes,\s*kind: ParseErrorKind::ParseError\(\"line is not a valid proguard record\"\),\s*\}\)\?;\s*let original_class = split_class\.next\(\);",
                  """let ghost orig_full = str_bytes(original);
             proof { reveal(str_no_nl); }
-            let (original, original_class) = shim_rsplit_class(original);
+            let (original, original_class) = shim_rsplit_class(original, \\1);
             proof {
                 reveal(str_no_nl);
                 match spec_last_dot(orig_full) {
